@@ -184,7 +184,8 @@ def gen_params(r, feats, n=None):
     n = r.randint(1, 4) if n is None else n
     pairs = []
     pieces = []
-    alphabet = UNRESERVED + ' !$()*,/:;@[]'
+    # includes the characters that are syntax when raw ('&', '=', '+', '%', '#', '?') and therefore travel percent-encoded
+    alphabet = UNRESERVED + ' !$()*,/:;@[]' + '&=+%#?'
     for _ in range(n):
         name = r.text(alphabet, 1, 6)
         if r.chance(0.2):
